@@ -31,6 +31,8 @@ struct World {
     next_cid: usize,
     /// connections suspended in a delivery: cid -> the `deliver` stimulus that completes it
     blocked: BTreeMap<usize, Value>,
+    /// random runs: the user may drop a protocol in this execution
+    dropper: bool,
     fault: String,
     panicked: bool,
     /// harness-side count of steps per stimulus kind
@@ -41,7 +43,7 @@ impl World {
     fn new(ka: &[bool], fault: &str) -> Self {
         let h = ServiceHarness::new(ka);
         let peers = PEERS.iter().map(|n| (n.to_string(), PeerId::random())).collect();
-        World { h, peers, conns: BTreeMap::new(), next_cid: 1, blocked: BTreeMap::new(), fault: fault.to_string(), panicked: false, out: vec![] }
+        World { h, peers, conns: BTreeMap::new(), next_cid: 1, blocked: BTreeMap::new(), dropper: false, fault: fault.to_string(), panicked: false, out: vec![] }
     }
     fn peer(&self, n: &str) -> PeerId {
         self.peers.iter().find(|(k, _)| k == n).expect("peer").1
@@ -54,7 +56,11 @@ impl World {
     }
     /// a new sender would get a slot of q's inbox at once (nobody is queued for it)
     fn room(&self, q: usize) -> bool {
-        self.h.inbox_free(q) > 0 && !self.blocked.values().any(|d| d["q"] == q)
+        // a dropped protocol never makes a sender wait: the send fails at once
+        !self.h.is_live(q) || (self.h.inbox_free(q) > 0 && !self.blocked.values().any(|d| d["q"] == q))
+    }
+    fn live_protocols(&self) -> Vec<usize> {
+        (0..NQ).filter(|q| self.h.is_live(*q)).collect()
     }
     fn room_all(&self) -> bool {
         (0..NQ).all(|q| self.room(q))
@@ -114,7 +120,8 @@ impl World {
             inbox.push(self.h.inbox_len(q));
         }
         let blk: Vec<usize> = self.blocked.keys().copied().collect();
-        json!({"conns": conns, "track": track, "inbox": inbox, "next": self.h.next_substream_id(), "blk": blk})
+        let deadq: Vec<usize> = (0..NQ).filter(|q| !self.h.is_live(*q)).collect();
+        json!({"conns": conns, "track": track, "inbox": inbox, "next": self.h.next_substream_id(), "blk": blk, "deadq": deadq})
     }
 
     /// Apply one stimulus; the recorded line is appended to `self.out`. Returns false if the
@@ -132,22 +139,43 @@ impl World {
             "est" => {
                 let p = sp.clone().unwrap();
                 let c = self.next_cid;
-                if cid.map(|w| w != c).unwrap_or(false) || !self.room_all() {
+                let full = s.get("full").and_then(|x| x.as_i64()).unwrap_or(-1);
+                if cid.map(|w| w != c).unwrap_or(false) {
                     return false;
                 }
+                if full < 0 && !self.room_all() {
+                    return false;
+                }
+                if full >= 0 {
+                    let fq = full as usize;
+                    let others_ok = (0..NQ).filter(|q| *q != fq).all(|q| self.room(q));
+                    if fq >= NQ || !self.h.is_live(fq) || self.blocked.values().any(|d| d["q"] == fq) || !others_ok {
+                        return false;
+                    }
+                }
+                stim["full"] = json!(full);
                 let listener = c % 2 == 1;
                 stim["c"] = json!(c);
                 stim["dir"] = json!(if listener { "in" } else { "out" });
                 let peer = self.peer(&p);
                 let address: Multiaddr = format!("/ip4/10.0.{}.{}/tcp/{}", c / 250, c % 250 + 1, 30000 + c).parse().unwrap();
                 self.next_cid += 1;
-                self.conns.insert(c, (p, "live"));
-                catch(|| self.h.establish(peer, c, listener, address)).map(|r| {
-                    Some(match r {
-                        Ok(()) => json!({"k": "ok"}),
-                        Err(e) => json!({"k": "err", "err": e}),
-                    })
-                })
+                self.conns.insert(c, (p.clone(), "live"));
+                let r = catch(|| self.h.establish(peer, c, listener, address, if full >= 0 { Some(full as usize) } else { None }))
+                    .map(|r| Some(World::delivery(r)));
+                if let Ok(Some(v)) = &r {
+                    if v["k"] == "blocked" {
+                        self.blocked.insert(c, json!({"a": "deliver", "c": c, "what": "est", "id": -1, "ok": true, "q": full, "p": p}));
+                    }
+                }
+                r
+            }
+            "dropproto" => {
+                let q = q.unwrap();
+                if !self.h.is_live(q) || self.live_protocols().len() < 2 {
+                    return false;
+                }
+                catch(|| self.h.drop_protocol(q)).map(|_| Some(json!({"k": "ok"})))
             }
             "close" => {
                 let c = cid.unwrap();
@@ -155,7 +183,7 @@ impl World {
                     return false;
                 }
                 let clog = s.get("clog").and_then(|x| x.as_i64()).unwrap_or(-1);
-                if clog >= 0 && !self.inbox_empty(clog as usize) {
+                if clog >= 0 && (!self.h.is_live(clog as usize) || !self.inbox_empty(clog as usize)) {
                     return false;
                 }
                 stim["p"] = json!(self.conns[&c].0);
@@ -195,6 +223,9 @@ impl World {
             }
             "poll" => {
                 let q = q.unwrap();
+                if !self.h.is_live(q) {
+                    return false;
+                }
                 let fault = self.fault.clone();
                 catch(|| self.h.poll_service(q)).map(|e| {
                     let mut v = self.event(e);
@@ -209,6 +240,9 @@ impl World {
             }
             "open" => {
                 let (q, p) = (q.unwrap(), self.peer(sp.as_ref().unwrap()));
+                if !self.h.is_live(q) {
+                    return false;
+                }
                 let fault = self.fault.clone();
                 catch(|| self.h.open_substream(q, p)).map(|r| {
                     Some(match r {
@@ -234,7 +268,7 @@ impl World {
             "reply" => {
                 let (c, id) = (cid.unwrap(), s["id"].as_u64().unwrap() as usize);
                 let Some((rq, _)) = self.h.pending_opens(c).into_iter().find(|(_, i)| *i == id) else { return false };
-                let full = s.get("full").and_then(|x| x.as_bool()).unwrap_or(false);
+                let full = s.get("full").and_then(|x| x.as_bool()).unwrap_or(false) && self.h.is_live(rq);
                 // one sender at a time waits for an inbox; an ordinary delivery needs a free slot
                 if self.st(c) != "live" || self.blocked.contains_key(&c) || self.blocked.values().any(|d| d["q"] == rq) || (!full && !self.room(rq)) {
                     return false;
@@ -252,7 +286,7 @@ impl World {
             }
             "inbound" => {
                 let (c, q) = (cid.unwrap(), q.unwrap());
-                let full = s.get("full").and_then(|x| x.as_bool()).unwrap_or(false);
+                let full = s.get("full").and_then(|x| x.as_bool()).unwrap_or(false) && self.h.is_live(q);
                 if self.st(c) != "live" || self.blocked.contains_key(&c) || self.blocked.values().any(|d| d["q"] == q) || (!full && !self.room(q)) {
                     return false;
                 }
@@ -280,6 +314,9 @@ impl World {
             }
             "fclose" => {
                 let (q, p) = (q.unwrap(), self.peer(sp.as_ref().unwrap()));
+                if !self.h.is_live(q) {
+                    return false;
+                }
                 catch(|| self.h.force_close(q, p)).map(|r| {
                     Some(match r {
                         Ok(()) => json!({"k": "ok"}),
@@ -289,7 +326,7 @@ impl World {
             }
             "expire" => {
                 let (q, p, c) = (q.unwrap(), self.peer(sp.as_ref().unwrap()), cid.unwrap());
-                if !self.inbox_empty(q) {
+                if !self.h.is_live(q) || !self.inbox_empty(q) {
                     return false;
                 }
                 catch(|| {
@@ -397,7 +434,7 @@ impl World {
         self.settle(rng);
         // every live connection can still deliver a substream to every protocol
         for c in self.live() {
-            for q in 0..NQ {
+            for q in self.live_protocols() {
                 self.apply(&json!({"a": "inbound", "c": c, "q": q}));
             }
         }
@@ -419,7 +456,7 @@ impl World {
             }
             let c = self.next_cid - 1;
             self.poll_all();
-            for q in 0..NQ {
+            for q in self.live_protocols() {
                 self.apply(&json!({"a": "inbound", "c": c, "q": q}));
             }
             self.poll_all();
@@ -436,7 +473,7 @@ impl World {
         let mut v = vec![];
         for (n, p) in &self.peers {
             if self.live_of(n) < overlap && self.next_cid <= max_cid {
-                v.push(json!({"a": "est", "p": n}));
+                v.push(json!({"a": "est", "p": n, "full": if rng.gen_bool(0.1) { rng.gen_range(0..NQ as i64) } else { -1 }}));
             }
             for q in 0..NQ {
                 if self.h.connections(q, p).is_some() || rng.gen_bool(0.1) {
@@ -447,6 +484,9 @@ impl World {
                     }
                 }
             }
+        }
+        if self.dropper && rng.gen_bool(0.3) {
+            v.push(json!({"a": "dropproto", "q": rng.gen_range(0..NQ)}));
         }
         for q in 0..NQ {
             v.push(json!({"a": "poll", "q": q}));
@@ -525,6 +565,7 @@ fn run_random(b: usize, rng: &mut StdRng, len: usize, fault: &str) -> Vec<String
     let overlap = if rng.gen_bool(0.12) { 3 } else { 2 };
     let max_cid = rng.gen_range(3..=14);
     let mut w = World::new(&ka, fault);
+    w.dropper = rng.gen_bool(0.25);
     w.out.push(json!({"e": "reset", "b": b, "src": "random", "ka": ka, "overlap": overlap}).to_string());
     for _ in 0..len {
         if w.panicked {
